@@ -74,12 +74,26 @@ def run_check(prop, tier, seed):
             cov['transitions'] += r['generated']
             cov['traces_validated_against_impl'] += 1
             cov['trace_events'] += r['events']
-        # samples: actual events of this run
-        for f in files[:1]:
-            with open(f) as fh:
-                lines = fh.readlines()
-            for i in sorted(set([0, len(lines) // 2, len(lines) - 1])):
-                cov['samples'].append(json.loads(lines[i]))
+        # samples: actual events of this run, one per operation (configuration events last);
+        # distinct_nontrivial: distinct call events (configuration / reset events excluded), counted
+        import hashlib as _h
+        seen_ops, distinct = {}, set()
+        for f in files:
+            with open(f, 'rb') as fh:
+                for line in fh:
+                    i = line.find(b'"op":"')
+                    op = line[i + 6:line.find(b'"', i + 6)].decode() if i >= 0 else '?'
+                    trivial = op.endswith(('.set', '.reset', '.univ'))
+                    if not trivial:
+                        distinct.add(_h.blake2b(line, digest_size=8).digest())
+                    if op not in seen_ops and len(line) < 4000:
+                        seen_ops[op] = json.loads(line)
+        cov['evaluations'] = cov['trace_events']
+        cov['distinct_nontrivial'] = len(distinct)
+        ordered = sorted(seen_ops, key=lambda o: (o.endswith(('.set', '.reset', '.univ')), o))
+        for op in ordered:
+            cov['samples'].append(seen_ops[op])
+        del distinct
 
         # ---- extra legs (graphs, MBT) are plug-ins: each returns (coverage-part, mismatches)
         extra_bads = []
@@ -169,10 +183,10 @@ def run_check(prop, tier, seed):
             vf.log('[%s] failed demands: %s' % (prop, ', '.join('%s x%d' % kv for kv in sorted(percode.items()))))
 
         cov['exhaustive'] = bool(plan.get('exhaustive', {}).get(tier, False))
-        cov['rule'] = plan.get('rule', '')
+        cov['rule'] = plan.get('rule', '') + ' | distinct_nontrivial = distinct recorded call events (configuration/reset events excluded), counted by hashing every event line'
         cov['known_findings_reported'] = len(known_hits)
         cov['other_property_notes'] = sorted(set(c for c, _ in others))
-        cov['samples'] = cov['samples'][:6] or [{'note': 'no trace samples (MC only)'}]
+        cov['samples'] = cov['samples'][:8] or [{'note': 'no trace samples (MC only)'}]
         vf.write_evidence(prop, tier, seed, cov, time.time() - t0, len(violations),
                           plan.get('assumptions', []))
         vf.log('[%s] %s tier=%s seed=%d states=%d transitions=%d trace_events=%d wall=%.1fs'
